@@ -474,8 +474,30 @@ func compUniverses(fields []string) []universe {
 	mutateNext := func(r *rand.Rand) string {
 		pin(r)
 		parts := append([]string{}, pinned[0]...)
+		// the byte that differs sits, half of the time, among the last few bytes of the fixed-width part (so that many
+		// keys share everything before it: long compressed paths with branch points deep inside), otherwise anywhere
+		total := 0
+		for _, f := range fields {
+			if f != "s" {
+				total += widthOf(f) / 8
+			}
+		}
 		for m := 0; m < 1+r.Intn(2); m++ {
-			i := r.Intn(len(fields))
+			i, pos := r.Intn(len(fields)), -1
+			if total > 0 && r.Intn(2) == 0 {
+				g := total - 1 - r.Intn(min(4, total))
+				for j, f := range fields {
+					if f == "s" {
+						continue
+					}
+					if w := widthOf(f) / 8; g < w {
+						i, pos = j, w-1-g // pos counts from the least significant byte
+						break
+					} else {
+						g -= w
+					}
+				}
+			}
 			switch f := fields[i]; f {
 			case "s":
 				b := unhex(parts[i])
@@ -489,11 +511,15 @@ func compUniverses(fields []string) []universe {
 			case "f32", "f64":
 				// keep the sign and exponent (no NaN), vary one mantissa byte
 				w := widthOf(f)
-				pos := r.Intn(w/8 - 2)
+				if pos < 0 || pos >= w/8-2 {
+					pos = r.Intn(w/8 - 2)
+				}
 				parts[i] = canonNum(f, bitsLit(parseBits(parts[i], w)^uint64(1+r.Intn(255))<<uint(8*pos), w))
 			default:
 				w := widthOf(f)
-				pos := r.Intn(w / 8)
+				if pos < 0 {
+					pos = r.Intn(w / 8)
+				}
 				parts[i] = bitsLit(parseBits(parts[i], w)^uint64(1+r.Intn(3))<<uint(8*pos), w)
 			}
 		}
